@@ -362,6 +362,71 @@ def _run_cases(ctx, rng, state, ModulusPack, Message, SSHException, kex_gex_mod,
                 mp.read_file(path)
                 if dump_pack(mp.pack) != before:
                     ctx.fail("file:reload-changes-pack", case, "pack differs after a second read_file")
+        # ------------------------------------------------------------ (b2) ONE object: read_file(A), requests, read_file(B), requests
+        def moduli_file(pool):
+            rows = [gen_line(rng, pool, malformed=0.05) for _ in range(rng.randrange(1, 9))]
+            valid = {}
+            for row in rows:
+                f = ref_fields(row.strip())
+                v = ref_valid(f) if f else None
+                if v:
+                    valid.setdefault(v[0], []).append((v[1], v[2]))
+            return "\n".join(rows) + "\n", valid
+
+        hist, hreqs = [], []
+        for i in range(n_files // 4):
+            big = rng.random() < 0.1
+            pool_a = gen_pool(rng, big)
+            mode = rng.random()
+            if mode < 0.4:      # B has sizes A lacks
+                pool_b = sorted(set(pool_a) | set(gen_pool(rng, big)))
+            elif mode < 0.7:    # B drops sizes of A
+                pool_b = sorted(rng.sample(pool_a, max(1, len(pool_a) - 1)))
+            else:
+                pool_b = gen_pool(rng, big)
+            (ta, va), (tb, vb) = moduli_file(pool_a), moduli_file(pool_b)
+            sizes = sorted(set(va) | set(vb))
+            reqs_a = [(gen_triple(rng, sizes), rng.randrange(0, 50)) for _ in range(rng.randrange(1, 3))]
+            reqs_b = [(gen_triple(rng, sizes), rng.randrange(0, 50)) for _ in range(rng.randrange(2, 5))]
+            hist.append((ta, va, tb, vb, reqs_a, reqs_b))
+            for text, rq in ((ta, reqs_a), (tb, reqs_b)):
+                for t, k in rq:
+                    hreqs.append("file %d %d %d %d %s" % (t[0], t[1], t[2], k, hx(text.encode("ascii"))))
+        hreplies = ctx.driver("C43", hreqs)
+        hidx = 0
+        for ta, va, tb, vb, reqs_a, reqs_b in hist:
+            mp = ModulusPack()
+            case = {"moduli_text_first": ta[:700], "moduli_text_second": tb[:700],
+                    "history_on_one_object": ["read_file(first)"] + ["get_modulus%r" % (t,) for t, _ in reqs_a] +
+                                             ["read_file(second)"] + ["get_modulus%r" % (t,) for t, _ in reqs_b]}
+            for text, valid, rq, tag in ((ta, va, reqs_a, "first"), (tb, vb, reqs_b, "second")):
+                with open(path, "w", newline="") as fh:
+                    fh.write(text)
+                try:
+                    mp.read_file(path)
+                except Exception as e:
+                    ctx.fail("read-file-escaped:" + exc_site(e), case, repr(e))
+                    hidx += len(rq)
+                    continue
+                for t, k in rq:
+                    state["k"] = k
+                    try:
+                        res, got = _get(mp, t, SSHException)
+                    except Exception as e:
+                        ctx.fail("reread:get-modulus-escaped:" + exc_site(e), dict(case, request=list(t), after=tag),
+                                 "sizes in the file just read: %r; %r" % (sorted(valid), e))
+                        hidx += 1
+                        continue
+                    # the answer depends on the file read LAST only
+                    _judge(ctx, dict(case, request=list(t), after="read_file(%s)" % tag), valid, t, got, "reread")
+                    if hreplies is not None:
+                        model = hreplies[hidx].split(" | ")[-1]
+                        if model != res:
+                            ctx.disagree("read_file, get_modulus, read_file, get_modulus on one object",
+                                         dict(case, request=list(t), after=tag), model, res)
+                    hidx += 1
+            ctx.case(("reread", ta, tb), set(va) != set(vb))
+            ctx.dist("history:read-get-read-get")
     finally:
         try:
             os.unlink(path)
